@@ -33,9 +33,10 @@ Inductive outcome := Continue (anon : bool) | Fatal (alert : Z).
 
 Record fixes := { fx_status : bool;     (* C04-nocb-authstatus / C04-3: pending alert or non-PASS authStatus (1.3: and rc < 0) is a failure *)
                   fx_noca13 : bool;     (* C04-2: TLS 1.3 gets the "no CA loaded => unknown_ca" rule *)
-                  fx_cbalert : bool }.  (* C04-4: the generic bad_certificate alert is set before the callback is consulted *)
-Definition pinned := {| fx_status := false; fx_noca13 := false; fx_cbalert := false |}.
-Definition fixed := {| fx_status := true; fx_noca13 := true; fx_cbalert := true |}.
+                  fx_cbalert : bool;    (* C04-4: the generic bad_certificate alert is set before the callback is consulted *)
+                  fx_severity : bool }. (* C04-6: one chain -> alert mapping for every version (matrixSslSetCertChainAlert): most severe failure wins *)
+Definition pinned := {| fx_status := false; fx_noca13 := false; fx_cbalert := false; fx_severity := false |}.
+Definition fixed := {| fx_status := true; fx_noca13 := true; fx_cbalert := true; fx_severity := true |}.
 
 Definition has_flag (fl f : Z) : bool := negb (Z.land fl f =? 0).
 Definition NONE := a_SSL_ALERT_NONE.
@@ -63,6 +64,40 @@ Definition depth_exceeded (maxd pathLen : Z) (c : certv) : bool :=
 Definition mark_depth (c : certv) : certv :=     (* cert->authStatus |= FAIL_PATH_LEN; cert->authFailFlags |= VERIFY_DEPTH_FLAG *)
   {| cv_status := Z.lor (cv_status c) a_PS_CERT_AUTH_FAIL_PATH_LEN;
      cv_flags := Z.lor (cv_flags c) a_PS_CERT_AUTH_FAIL_VERIFY_DEPTH_FLAG; cv_self := cv_self c |}.
+
+(* ------------------------------------------------------------------ repaired code, every version: matrixssl.c
+   certAlertRank / raiseCertAlert / matrixSslSetCertChainAlert *)
+Definition rank (a : Z) : Z :=
+  if a =? NONE then 0 else if a =? a_SSL_ALERT_CERTIFICATE_EXPIRED then 1 else if a =? a_SSL_ALERT_CERTIFICATE_UNKNOWN then 2 else 3.
+Definition raise (err a : Z) : Z := if rank err <? rank a then a else err.          (* keep the more severe; the earlier one among equals *)
+Definition soft_flags : Z := Z.lor a_PS_CERT_AUTH_FAIL_DATE_FLAG a_PS_CERT_AUTH_FAIL_SUBJECT_FLAG.
+Definition ext_other (fl : Z) : bool :=                                              (* other || !(flags & (DATE|SUBJECT)) *)
+  negb (Z.land fl (Z.lnot soft_flags) =? 0) || (Z.land fl soft_flags =? 0).
+Definition cert_raise (c : certv) (hn : bool) (err : Z) : Z :=                       (* the switch on cert->authStatus *)
+  let s := cv_status c in
+  if s =? a_PS_CERT_AUTH_PASS then err
+  else if s =? a_PS_CERT_AUTH_FAIL_REVOKED then raise err a_SSL_ALERT_CERTIFICATE_REVOKED
+  else if s =? a_PS_CERT_AUTH_FAIL_EXTENSION then
+    let e1 := if ext_other (cv_flags c) then raise err (if hn then a_SSL_ALERT_BAD_CERTIFICATE else a_SSL_ALERT_ILLEGAL_PARAMETER) else err in
+    let e2 := if has_flag (cv_flags c) a_PS_CERT_AUTH_FAIL_SUBJECT_FLAG then raise e1 a_SSL_ALERT_CERTIFICATE_UNKNOWN else e1 in
+    if has_flag (cv_flags c) a_PS_CERT_AUTH_FAIL_DATE_FLAG then raise e2 a_SSL_ALERT_CERTIFICATE_EXPIRED else e2
+  else if (s =? a_PS_CERT_AUTH_FAIL_BC) || (s =? a_PS_CERT_AUTH_FAIL_DN) then
+    raise err (if hn then a_SSL_ALERT_BAD_CERTIFICATE else a_SSL_ALERT_UNKNOWN_CA)
+  else raise err a_SSL_ALERT_BAD_CERTIFICATE.
+(* for (cert = leaf; cert; cert = cert->next) { ++pathLen; depth rule (raise unknown_ca, mark); switch } *)
+Fixpoint chain_alert (maxd pathLen err : Z) (cs : list certv) : Z * list certv :=
+  match cs with
+  | [] => (err, [])
+  | c :: rest =>
+      let pl := pathLen + 1 in
+      let ex := depth_exceeded maxd pl c in
+      let err1 := if ex then raise err a_SSL_ALERT_UNKNOWN_CA else err in
+      let c1 := if ex then mark_depth c else c in
+      let '(e, r) := chain_alert maxd pl (cert_raise c1 (has_next rest) err1) rest in (e, c1 :: r)
+  end.
+Definition chain_alert_full (v : verdict) : Z * list certv :=
+  let '(err, cs) := chain_alert (v_maxdepth v) 0 NONE (v_chain v) in
+  ((if v_ca v then err else raise err a_SSL_ALERT_UNKNOWN_CA), cs).                   (* no CA loaded *)
 
 (* ------------------------------------------------------------------ TLS <= 1.2: hsDecode.c parseCertificate 3071-3176 *)
 (* while (cert) { ++pathLen; depth check (sets err, marks cert); if (err != NONE) break; switch (authStatus); cert = next } *)
@@ -108,6 +143,11 @@ Definition decide (fx : fixes) (rc err : Z) (cb : cbmode) : option Z * outcome :
 
 Definition cert_run12 (fx : fixes) (v : verdict) (cb : cbmode) : option Z * outcome :=
   if v_rc v =? a_PS_MEM_FAIL then (None, Fatal a_SSL_ALERT_INTERNAL_ERROR)              (* 3062-3066 *)
+  else if fx_severity fx then
+    let '(err, cs) := chain_alert_full v in
+    let rc := v_rc v in
+    let rc := if fx_status fx && (0 <=? rc) && (negb (err =? NONE) || negb (all_pass cs)) then a_PS_CERT_AUTH_FAIL else rc in
+    decide fx rc err cb
   else
     let '(err, cs) := walk12 (v_maxdepth v) 0 NONE (v_chain v) in
     (* 3206-3212: no CA loaded *)
@@ -140,6 +180,12 @@ Fixpoint result13 (err : Z) (cs : list certv) : Z :=
 
 Definition cert_run13 (fx : fixes) (v : verdict) (cb : cbmode) : option Z * outcome :=
   if v_rc v =? a_PS_MEM_FAIL then (None, Fatal a_SSL_ALERT_INTERNAL_ERROR)              (* 76-80 *)
+  else if fx_severity fx then
+    let '(err, cs) := chain_alert_full v in
+    let rc := if err =? NONE then a_PS_SUCCESS else a_MATRIXSSL_ERROR in
+    let rc := if fx_status fx && (v_rc v <? 0) then v_rc v else rc in
+    let rc := if fx_status fx && (0 <=? rc) && negb (all_pass cs) then a_PS_CERT_AUTH_FAIL else rc in
+    decide fx rc err cb
   else
     let '(err, cs) := pathlen13 (v_maxdepth v) 0 NONE (v_chain v) in
     let err := result13 err cs in
@@ -175,6 +221,10 @@ Record pcfg := { p_ver : version; p_role : vrole; p_kex : kexmode; p_cb : cbmode
                  p_fix_ske_alg : bool }.    (* C04-5: tlsVerify checks the algorithm against the offered list *)
 
 Inductive msg :=
+| MClientHello (hit : option bool)               (* server side: what the lookup of the offered resumption material (session id in the cache,
+                                                    session ticket, TLS 1.3 ticket PSK) answers: None = nothing offered / unknown / expired /
+                                                    does not decrypt; Some b = a resumable session, b = its original handshake authenticated
+                                                    the client by certificate *)
 | MCertificate (lk : nat) (v : verdict)          (* parsed chain: key of the first certificate + validator's verdict *)
 | MCertificateEmpty                              (* a Certificate message without any certificate *)
 | MServerKeyExchange (params alg : nat) (sg : nat)
@@ -184,13 +234,15 @@ Inductive msg :=
 | MCertificateVerify (alg : nat) (sg : nat)
 | MFinished (vd : nat).
 
-Inductive phase := PWaitCert | PWaitSke | PWaitShd | PWaitCke | PWaitCv | PWaitFin | PDone | PDead (alert : Z).
+Inductive phase := PHello | PWaitCert | PWaitSke | PWaitShd | PWaitCke | PWaitCv | PWaitFin | PDone | PDead (alert : Z).
 
 Inductive pop_event :=
 | PopSig (k alg : nat) (d : sigdata) (sg : nat)      (* a signature check that succeeded, with exactly these arguments *)
 | PopKeyTransport (k : nat) (tr : list nat) (vd : nat).   (* Finished verified under keys derived from a premaster sent encrypted to key k *)
 
-Record pst := { ph : phase; leaf : option nat; anon : bool; tr : list nat; pops : list pop_event }.
+Record pst := { ph : phase; leaf : option nat; anon : bool; tr : list nat; pops : list pop_event;
+                 resumed : option bool }.     (* Some b: this handshake resumed a session whose ORIGINAL handshake had (b = true) / had not
+                                                 authenticated the peer by certificate *)
 
 Definition ctx_server := 1%nat.    (* "TLS 1.3, server CertificateVerify" *)
 Definition ctx_client := 2%nat.    (* "TLS 1.3, client CertificateVerify" *)
@@ -199,7 +251,7 @@ Definition peer_ctx (c : pcfg) : nat :=
 
 (* message ids for the transcript *)
 Definition mid (m : msg) : nat :=
-  match m with MCertificate _ _ => 11 | MCertificateEmpty => 11 | MServerKeyExchange _ _ _ => 12 | MServerKeyExchangeUnsigned _ => 12 | MServerHelloDone => 14 | MClientKeyExchange => 16
+  match m with MClientHello _ => 1 | MCertificate _ _ => 11 | MCertificateEmpty => 11 | MServerKeyExchange _ _ _ => 12 | MServerKeyExchangeUnsigned _ => 12 | MServerHelloDone => 14 | MClientKeyExchange => 16
              | MCertificateVerify _ _ => 15 | MFinished _ => 20 end%nat.
 
 Section Machine.
@@ -207,14 +259,24 @@ Section Machine.
   Variable fin_ok : option nat -> list nat -> nat -> bool.     (* Finished MAC check; Some k: the keys derive from a premaster
                                                                   encrypted to public key k (RSA key transport) *)
 
-  Definition dead (s : pst) (a : Z) : pst := {| ph := PDead a; leaf := leaf s; anon := anon s; tr := tr s; pops := pops s |}.
-  Definition adv (s : pst) (m : msg) (p : phase) : pst := {| ph := p; leaf := leaf s; anon := anon s; tr := tr s ++ [mid m]; pops := pops s |}.
+  Definition dead (s : pst) (a : Z) : pst := {| ph := PDead a; leaf := leaf s; anon := anon s; tr := tr s; pops := pops s; resumed := resumed s |}.
+  Definition adv (s : pst) (m : msg) (p : phase) : pst := {| ph := p; leaf := leaf s; anon := anon s; tr := tr s ++ [mid m]; pops := pops s; resumed := resumed s |}.
   Definition memn (x : nat) (l : list nat) : bool := existsb (Nat.eqb x) l.
 
   Definition step (c : pcfg) (s : pst) (m : msg) : pst :=
     match ph s, m with
     | PDone, _ => s
     | PDead _, _ => s
+    | PHello, MClientHello hit =>
+        (* hsDecode.c parseClientHello: `if (matrixResumeSession(ssl) >= 0) { ssl->flags &= ~SSL_FLAGS_CLIENT_AUTH; ssl->flags |= RESUMED ...`
+           (the session-ticket path and TLS 1.3 PSK selection likewise); ONLY a successful lookup drops the requirement: otherwise the
+           full handshake asks for the certificate.  The code does not record in the cache entry / ticket whether the original
+           handshake authenticated the client (open finding when the same server keys serve connections without client auth). *)
+        match p_role c, hit with
+        | VServer, Some b => {| ph := PWaitFin; leaf := leaf s; anon := anon s; tr := tr s ++ [mid m]; pops := pops s; resumed := Some b |}
+        | VServer, None => adv s m PWaitCert
+        | VClient, _ => dead s a_SSL_ALERT_UNEXPECTED_MESSAGE
+        end
     | PWaitCert, MCertificate k v =>
         let o := match p_ver c with V12 => cert_outcome12 v (p_cb c) | V13 => cert_outcome13 v (p_cb c) end in
         match o with
@@ -225,7 +287,7 @@ Section Machine.
                        | V12, VServer => PWaitCke                                     (* hsDecode.c 3274 *)
                        | V12, VClient => match p_kex c with KDhe => PWaitSke | KRsa => PWaitShd end   (* 3278-3282 *)
                        end in
-            {| ph := nxt; leaf := Some k; anon := an; tr := tr s ++ [mid m]; pops := pops s |}
+            {| ph := nxt; leaf := Some k; anon := an; tr := tr s ++ [mid m]; pops := pops s; resumed := resumed s |}
         end
     | PWaitCert, MCertificateEmpty =>
         (* hsDecode.c 2890-2910 (SERVER_WILL_ACCEPT_EMPTY_CLIENT_CERT_MSG off: Gen/ConstsAuth a_cfg_accept_empty_client_cert = false),
@@ -238,7 +300,7 @@ Section Machine.
             if p_fix_ske_alg c && negb (memn alg (p_offered c)) then dead s a_SSL_ALERT_ILLEGAL_PARAMETER
             else let d := DParams (p_cr c) (p_sr c) params in
                  if sig_ok k alg d sg
-                 then {| ph := PWaitShd; leaf := leaf s; anon := anon s; tr := tr s ++ [mid m]; pops := PopSig k alg d sg :: pops s |}
+                 then {| ph := PWaitShd; leaf := leaf s; anon := anon s; tr := tr s ++ [mid m]; pops := PopSig k alg d sg :: pops s; resumed := resumed s |}
                  else dead s a_SSL_ALERT_DECRYPT_ERROR
         end
     | PWaitSke, MServerKeyExchangeUnsigned _ => dead s a_SSL_ALERT_DECODE_ERROR        (* tlsVerify: `if (end - c < 2) goto out_decode_error` *)
@@ -252,18 +314,21 @@ Section Machine.
             then dead s (match p_ver c with V12 => a_SSL_ALERT_DECODE_ERROR | V13 => a_SSL_ALERT_HANDSHAKE_FAILURE end)
             else let d := DTranscript (peer_ctx c) (tr s) in                           (* snapshot BEFORE this message is hashed *)
                  if sig_ok k alg d sg
-                 then {| ph := PWaitFin; leaf := leaf s; anon := anon s; tr := tr s ++ [mid m]; pops := PopSig k alg d sg :: pops s |}
+                 then {| ph := PWaitFin; leaf := leaf s; anon := anon s; tr := tr s ++ [mid m]; pops := PopSig k alg d sg :: pops s; resumed := resumed s |}
                  else dead s a_SSL_ALERT_DECRYPT_ERROR
         end
     | PWaitFin, MFinished vd =>
         let kt := match p_ver c, p_role c, p_kex c with V12, VClient, KRsa => leaf s | _, _, _ => None end in
         if fin_ok kt (tr s) vd
         then {| ph := PDone; leaf := leaf s; anon := anon s; tr := tr s ++ [mid m];
-                pops := match kt with Some k => PopKeyTransport k (tr s) vd :: pops s | None => pops s end |}
+                pops := match kt with Some k => PopKeyTransport k (tr s) vd :: pops s | None => pops s end; resumed := resumed s |}
         else dead s (match p_ver c with V12 => a_SSL_ALERT_DECRYPT_ERROR | V13 => a_SSL_ALERT_DECRYPT_ERROR end)
     | _, _ => dead s a_SSL_ALERT_UNEXPECTED_MESSAGE            (* state gates: parseSSLHandshake / tls13CheckHsState *)
     end.
 
-  Definition init (t0 : list nat) : pst := {| ph := PWaitCert; leaf := None; anon := false; tr := t0; pops := [] |}.
+  Definition init (t0 : list nat) : pst := {| ph := PWaitCert; leaf := None; anon := false; tr := t0; pops := []; resumed := None |}.
   Definition run (c : pcfg) (t0 : list nat) (ms : list msg) : pst := fold_left (step c) ms (init t0).
+  (* a server connection configured for client authentication, from the ClientHello on *)
+  Definition init_hello : pst := {| ph := PHello; leaf := None; anon := false; tr := []; pops := []; resumed := None |}.
+  Definition run_hello (c : pcfg) (ms : list msg) : pst := fold_left (step c) ms init_hello.
 End Machine.
